@@ -617,6 +617,28 @@ func drawC10(t *rapid.T) c10Case {
 }
 
 func TestC10_Main(t *testing.T) {
+	// valid secrets of every boundary key length under every hash through the five keyed operations, enumerated: code that
+	// treats keys by length (block sizes 64 / 128, digest sizes 20 / 32 / 64) indexes or slices wrongly at a few lengths only,
+	// and the random cases met SHA-1 with a 65..128-byte key at two seeds of three (C10-r7b)
+	i := 0
+	for _, n := range []int{0, 1, 19, 20, 21, 31, 32, 33, 63, 64, 65, 66, 100, 127, 128, 129, 130, 200, 255, 256, 257, 1024} {
+		key := make([]byte, n)
+		for k := range key {
+			key[k] = byte(k*13 + n)
+		}
+		for algo := 0; algo < 3; algo++ {
+			for _, op := range []string{"GenerateHOTP", "ValidateHOTP", "GenerateTOTP", "ValidateTOTP", "GenerateOCRA", "ValidateOCRA"} {
+				if i++; !ev.Mine(i) {
+					continue
+				}
+				c := c10Case{Op: op, U: 1, Digits: 6, Algo: algo, Period: 30, Skew: 1, Unix: 59}
+				c.S[0], c.S[1] = []byte(ref.B32(key)), []byte("123456")
+				c.Cfg = ref.OCRACfg{Raw: "OCRA-1:HOTP-SHA1-6:QN08", Hash: algo, Digits: 6, Q: true}
+				c.B[1] = []byte("12345678")
+				c10Main.each(t, c)
+			}
+		}
+	}
 	c10Main.rapid(t, ev.Pick(60_000, 600_000), drawC10)
 }
 
